@@ -22,6 +22,7 @@
 (*                                     (u,v) true                           *)
 (*   O.ids     <<t, ...>>              temporal_snapshots_ids()             *)
 (*   O.cnt     << <<t,num,den>>, ..>>  interactions_per_snapshots()         *)
+(*   O.ids2, O.cnt2                    the same through the dn.* functions   *)
 (*   O.cntAt   << <<t,num,den>>, ..>>  interactions_per_snapshots(t), grid  *)
 (*   O.nn      << <<t,n>>, ...>>       number_of_nodes(t) on the grid       *)
 (*   O.avg     <<num,den>> or <<>>     avg_number_of_nodes() (<<>>: raised) *)
@@ -95,6 +96,8 @@ C04_d(R, O) == O.ids # <<>> =>
                  /\ O.avg # <<>>
                  /\ O.avg[2] > 0
                  /\ RatEq(O.avg, <<SumNN(O, IdSet(O)), Cardinality(IdSet(O))>>)
+\* dn.temporal_snapshots_ids(G) / dn.interactions_per_snapshots(G) are the methods
+C04_e(R, O) == O.ids2 = O.ids /\ ToSet(O.cnt2) = ToSet(O.cnt) /\ Len(O.cnt2) = Len(O.cnt)
 C04_x(R, O) == NoErr(O, {"ids:", "cnt:", "cntAt:", "nn:"})
 
 (***************************************************************************)
@@ -251,6 +254,7 @@ CoreTable(R, O, T) ==
      <<"C04_b_count_at", St(C04_b(R, O))>>,
      <<"C04_c_count_all", St(C04_c(R, O))>>,
      <<"C04_d_avg_nodes", St(C04_d(R, O))>>,
+     <<"C04_e_functional_forms", St(C04_e(R, O))>>,
      <<"C04_x_observers", St(C04_x(R, O))>>,
      <<"C05_a_chronological", St(C05_a(R, O))>>,
      <<"C05_b_no_repeat", St(C05_b(R, O))>>,
